@@ -452,6 +452,8 @@ def flush(r, reqs, pend):
 
 
 def declare(r):
+    import common
+    r.extra["repo_under_test"] = common.REPO
     r.assumptions[:] = [
         "hand model (Model/Local.lean) tied to xrspatial/local.py by the correspondence run only",
         "the model follows the code as repaired by fixes/D11-local-nditer-index-order.patch (index-order iteration)",
@@ -465,7 +467,7 @@ def declare(r):
 
 def run(r, n_override=None, bias=None):
     declare(r)
-    n_rand = {"quick": 10000, "thorough": 120000}[r.tier] if n_override is None else n_override
+    n_rand = {"quick": 10000, "thorough": 250000}[r.tier] if n_override is None else n_override
     r.rule = ("per case: op in the 10 public operators (cell_stats x 6 statistics), 2..6 data layers + 0..2 unused "
               "variables, shape 1x1..5x6, dtypes f8/f4/i8/i4, values ties{0,1,2}/ints/dyadics/wide, NaN in 45% of "
               "float layers, data_vars None/subset/shuffled, ref anywhere in the dataset, integer refs in 1..n mostly, "
